@@ -104,6 +104,7 @@ def run(ctx):
     corr = 0
     try:
         corr = audit_policy_peers(cov, fail)
+        corr += audit_policy_peers_e2e(cov, fail)[0]
     except Exception as e:  # the glue moved: not a verdict, but the proof tie is then weaker
         failures.append({'sig': {'kind': 'audit_of_policy_peer_crashed', 'where': 'output()', 'name': type(e).__name__},
                          'input': {}, 'observed': repr(e), 'expected': 'output() runs'})
@@ -178,9 +179,65 @@ def audit_policy_peers(cov, fail):
     return n
 
 
+def policy_server(p):
+    """a scripted target configured exactly per a built-in server policy: its lists, host keys / certificates of the listed sizes signed by CAs of the listed type and size, its moduli"""
+    import fakenet as fn
+
+    def ca_blob(t, bits):
+        return fn.ed25519_blob() if t.startswith('ssh-ed25519') else fn.rsa_blob(bits)
+    hostkeys = {}
+    sizes = p['hostkey_sizes'] or {}
+    for t in (p['host_keys'] or []) + (p['optional_host_keys'] or []):
+        v = sizes.get(t, {})
+        bits = v.get('hostkey_size', 4096)
+        if '-cert-' in t:
+            ca = ca_blob(v.get('ca_key_type', 'ssh-ed25519'), v.get('ca_key_size', 256))
+            if 'ed25519' in t:
+                hostkeys[t] = fn.cert_blob('ssh-ed25519-cert-v01@openssh.com', fn.sstr(b'\x42' * 32), ca)
+            else:
+                hostkeys[t] = fn.cert_blob('ssh-rsa-cert-v01@openssh.com', fn.mpint(65537) + fn.mpint((1 << (bits - 1)) | 1), ca)
+        elif 'ed25519' in t:
+            hostkeys[t] = fn.ed25519_blob()
+        else:
+            hostkeys[t] = fn.rsa_blob(bits)
+    dh = p['dh_modulus_sizes'] or {}
+    size = max(dh.values()) if dh else 4096
+    banner = (p['banner'] or 'SSH-2.0-OpenSSH_9.9').encode()
+    return fn.simple_server(kex=tuple(p['kex'] or []), key=tuple((p['host_keys'] or []) + (p['optional_host_keys'] or [])), enc=tuple(p['ciphers'] or []), mac=tuple(p['macs'] or []),
+                            banner=banner, hostkeys=hostkeys, gex=lambda mn, pf, mx: size if mn <= size <= mx else (None if mx < size else size))
+
+
+def audit_policy_peers_e2e(cov, fail, only=None):
+    """the whole audit (handshake, host-key and group-exchange probes, report) of the target each built-in server policy describes: no failure-level finding"""
+    import fakenet as fn
+    from ssh_audit.builtin_policies import BUILTIN_POLICIES
+    n = 0
+    bad = 0
+    for pname, p in BUILTIN_POLICIES.items():
+        if not p['server_policy'] or (only is not None and pname != only):
+            continue
+        srv = policy_server(p)
+        code, out = fn.run_main(['-n', '--skip-rate-test', '10.17.0.1'], fn.FakeNet({'10.17.0.1': srv}))
+        n += 1
+        cov.add(('audit-e2e', pname), True, tags=['policy-peer-audit-e2e'])
+        fl = [l for l in out.split('\n') if '[fail]' in l]
+        probed = len(srv.log) > 1
+        if code == 3 or fl or code not in (0, 2) or not probed:
+            bad += 1
+            fail('policy_peer_fails_full_audit', pname, fl[0].strip() if fl else 'exit %s' % code, {'exit': code, 'fail_lines': fl[:4], 'connections': len(srv.log)}, 'no failure-level finding (exit 0 or 2)')
+    fn.reset_dbs()
+    return n, bad
+
+
 def replay(obj):
     import json
-    print(json.dumps(obj.get('failure', obj), indent=1))
+    f = obj.get('failure', obj)
+    print(json.dumps(f, indent=1)[:1500])
+    if f.get('sig', {}).get('kind') == 'policy_peer_fails_full_audit':
+        res = []
+        n, bad = audit_policy_peers_e2e(Coverage('replay'), lambda *a: res.append(a), only=f['sig']['where'])
+        print('policy %r: %s' % (f['sig']['where'], 'a failure-level finding is reported: %r' % (res[0][3],) if bad else 'no failure-level finding'))
+        return 1 if bad else 0
     return 0
 
 TECHNIQUE = 'Lean 4 kernel proof (decide +kernel) over tables regenerated from the source by a translator on every run'
